@@ -48,8 +48,10 @@ def main():
         drv = common.Driver()
         if replay:
             rp = json.load(open(replay))
-            r = mod.replay(ctx, rp) if hasattr(mod, 'replay') else None
+            r = generic_replay(mod, ctx, rp)
             print('replay result:', r)
+            if r:
+                print('VIOLATION property=%s replay=%s' % (pid, replay))
             sys.exit(1 if r else 0)
         mod.run(ctx, b, drv)
     except SystemExit:
@@ -59,6 +61,44 @@ def main():
         ctx.add_obligation('harness', False, tb[-800:])
         ctx.violation('harness-crashed:%s' % type(e).__name__, dict(kind='theorem', obligation='harness', detail=tb[-3000:]), found_input=False)
     sys.exit(ctx.finish())
+
+
+def generic_replay(mod, ctx, rp):
+    """re-evaluate a replay file against the current /repo: returns the signature observed now, or None when the input passes.
+    Replays without a concrete input (kind `theorem`: a broken obligation / correspondence stream) are re-decided by the whole check."""
+    import parso
+    from harness import preds
+    if hasattr(mod, 'replay'):
+        return mod.replay(ctx, rp)
+    text = None
+    if rp.get('input_cps'):
+        try:
+            cps = rp['input_cps'] if isinstance(rp['input_cps'], list) else json.loads(rp['input_cps'])
+            text = ''.join(chr(c) for c in cps)
+        except Exception:
+            text = None
+    if text is None:
+        text = rp.get('input_text') or rp.get('text')
+    if rp.get('kind') == 'theorem' or text is None:
+        return 'not-an-input-replay: run ./check %s to re-decide (%s)' % (ctx.pid if hasattr(ctx, 'pid') else '', rp.get('obligation', rp.get('kind')))
+    if hasattr(mod, 'recheck'):
+        r = mod.recheck(rp, text)
+        return None if r in (None, 'not-accepted') else r
+    if hasattr(mod, 'pred'):
+        v = rp.get('version') or '3.10'
+        try:
+            m = parso.load_grammar(version=v).parse(text)
+        except RecursionError:
+            return None
+        except Exception as e:
+            return preds.crash_sig(e)
+        try:
+            return mod.pred(v, text, m)
+        except RecursionError:
+            return None
+        except Exception as e:
+            return preds.crash_sig(e)
+    return 'not-replayable'
 
 
 def common_trusted():
